@@ -1,6 +1,21 @@
 package main
 
 var propTable = map[string]*propSpec{
+	"C02": {
+		ID:          "C02",
+		Rules:       []string{"R-REGTABLE", "R-DISPATCH", "R-OPNAMES", "R-DIVZERO"},
+		Explanation: "Decides only the pairing part of 'every arithmetic, bitwise and relational operator returns the result the manual defines': each operator of the source reaches the runtime function of that operator and no other — ops.Op to code operator (same-name maps, total over what astcomp lets through), code operator to its case in the interpreter loop, the case to the runtime function that implements it (R-DISPATCH b, c), the metamethod name each arithmetic case, each bitwise helper and each string-arithmetic metamethod passes on (R-OPNAMES) — and every integer division and modulo has a divisor excluded from zero on every path (R-DIVZERO: n // 0 and n % 0 are Lua errors, not Go panics).",
+		NotDecided:  "everything the property is really about: the values computed by the arithmetic helpers over the int64 x float64 operand space (wrap-around, floor division and modulo signs, exact mixed comparison, conversions, numeral decoding, the math library). Those are value-level; a sound argument would be an abstract-interpretation or solver proof, which is a different family. Known value-level defects seen while reading are listed in DESIGN.md and are not findings of this check.",
+		Assumptions: []string{"the frozen operator tables (operator - runtime function - metamethod name) were transcribed from the manual and confirmed by reading"},
+	},
+	"C19": {
+		ID:          "C19",
+		Rules:       []string{"R-REGTABLE", "R-ARITY", "R-POS", "R-ALLOC", "R-SIZECAP", "R-METER"},
+		Scope:       []string{"lib/stringlib/", "lib/tablelib/", "luastrings/"},
+		Explanation: "Decides only the 'never crashes, never runs away' corners of the string and table library functions, restricted to findings located in lib/stringlib, lib/tablelib and luastrings (the same rules run unrestricted under C04, C05 and C06): every argument read is within the declared arity or guarded (R-ARITY); every position normalised by StringNormPos is proved in range before it indexes or slices the subject — negative, zero and beyond-the-end positions, mininteger and maxinteger included (R-POS); sizes computed from counts (string.rep with separator, table functions) are tested for a wrapped negative result and compared with a bound (R-ALLOC sign, R-SIZECAP); every loop of these functions is metered, bounded by a held length, or table-listed with its bound (R-METER), so extreme ranges cannot spin unmetered.",
+		NotDecided:  "what the functions compute: sub, byte, char, rep, reverse, upper, lower, len, plain find, insert, remove, move, concat, unpack, pack and sort are laws about results for every argument tuple (position normalisation arithmetic, which elements move where, sort being a permutation) and are value-level. Known value-level defects seen while reading (plain find offsets, string.rep with a negative count) are listed in DESIGN.md and are not findings of this check.",
+		Assumptions: []string{"as for C04 (R-ARITY, R-POS, R-ALLOC, R-SIZECAP) and C05 (R-METER)"},
+	},
 	"C15": {
 		ID:          "C15",
 		Rules:       []string{"R-REGTABLE", "R-PATTERN", "R-METER"},
